@@ -169,6 +169,18 @@ func TestStatements(t *testing.T) {
 	}
 	eq(sel("SELECT task_id, collection_id, v FROM tp WHERE k LIKE '%'"), "t/12=b", "t1/1=d")
 
+	// a write outside the transaction while it is open is kept; the transaction's writes are applied on top at COMMIT
+	tx, _ = db.BeginTx(ctx, nil)
+	must(tx.ExecContext(ctx, "DELETE FROM tp WHERE task_id = ?", "t"))
+	must(db.ExecContext(ctx, ins, "r/p/t2/1", "t2", int64(1), "e", "e"))
+	eq(sel("SELECT task_id, collection_id, v FROM tp WHERE k LIKE '%'"), "t/12=b", "t1/1=d", "t2/1=e")
+	if err := tx.Commit(); err != nil {
+		t.Fatal(err)
+	}
+	eq(sel("SELECT task_id, collection_id, v FROM tp WHERE k LIKE '%'"), "t1/1=d", "t2/1=e")
+	must(db.ExecContext(ctx, ins, "r/p/t/12", "t", int64(12), "b", "b"))
+	must(db.ExecContext(ctx, "DELETE FROM tp WHERE task_id = ?", "t2"))
+
 	// injected commit failures
 	for _, mode := range []string{"before", "after"} {
 		tx, _ = db.BeginTx(ctx, nil)
